@@ -341,6 +341,13 @@ class WireEval:
                 v = self.folder.eval(b.value, {}, b.mod)
                 if v is not UNKNOWN:
                     return self.conv(v)
+                # a module-level struct template
+                nd = b.value
+                if isinstance(nd, ast.Call) and unparse(nd.func) in (
+                        "struct.Struct", "Struct") and nd.args:
+                    fv = self.folder.eval(nd.args[0], {}, b.mod)
+                    if isinstance(fv, str):
+                        return StructV(fv)
             if b is not None and b.kind in ("module", "ext", "func"):
                 return ("mod", e.id)
             return Unknown(e.id)
